@@ -300,6 +300,8 @@ func exec(c *gsim.Cluster, a []interface{}) *gsim.Step {
 		return c.Crash(str(arg(1)))
 	case "GossipRound":
 		return c.GossipRound(str(arg(1)))
+	case "StalledStream":
+		return c.StalledStream(str(arg(1)), str(arg(2)))
 	case "Hostile":
 		b, _ := hex.DecodeString(str(arg(2)))
 		return c.Hostile(str(arg(1)), b, "replay")
